@@ -244,6 +244,36 @@ def run(chk):
             for _k in range(3):
                 d = float(round(rng.uniform(0.0, 45000.0)))
                 cs.p3(slot, (q[0] + rng.uniform(-400, 400), q[1] + rng.uniform(-400, 400), TOP - d), d, [[4, 0, 0]])
+    # (3c) two features of one type on the same footprint, stacked: the upper one reaches down to a plane given at the corners,
+    # the lower one from that plane to a second plane; every feature keeps its own local depth range at a position both cover
+    for wi in range(6 if quick else 60):
+        rng.seed("%d/c04-4c/%d" % (chk.seed, wi))
+        kind3 = ["continental plate", "oceanic plate", "mantle layer"][wi % 3]
+        x0, y0 = float(rng.choice([1000.0, 3000.0])), float(rng.choice([2000.0, 5000.0]))        # no zero coordinates (known finding D8)
+        poly = [[x0, y0], [x0 + 8000.0, y0], [x0 + 8000.0, y0 + 8000.0], [x0, y0 + 8000.0]]
+        a0, ax, ay = float(rng.choice([9000.0, 14000.0])), rng.choice([0.25, -0.25, 0.5]), rng.choice([0.5, -0.25, 0.0])
+        b0, bx, by = a0 + float(rng.choice([12000.0, 20000.0])), rng.choice([-0.5, 0.25, 0.0]), rng.choice([0.25, 0.5, -0.5])
+        pa = lambda c: a0 + ax * (c[0] - x0) + ay * (c[1] - y0)
+        pb = lambda c: b0 + bx * (c[0] - x0) + by * (c[1] - y0)
+        up = {"model": kind3, "name": "upper", "coordinates": poly, "max depth": [[pa(c), [list(c)]] for c in poly]}
+        lw = {"model": kind3, "name": "lower", "coordinates": poly, "min depth": [[pa(c), [list(c)]] for c in poly], "max depth": [[pb(c), [list(c)]] for c in poly]}
+        feats = [up, lw] if wi % 2 == 0 else [lw, up]
+        wj = {"version": "1.1", "features": feats}
+        slot = cs.add_world(wj)
+        iu, il = feats.index(up), feats.index(lw)
+        for _k in range(24):
+            q = (x0 + float(rng.randrange(1, 16)) * 500.0, y0 + float(rng.randrange(1, 16)) * 500.0)
+            la, lb = pa(q), pb(q)
+            d = rng.choice([la - 700.0, la + 700.0, lb - 700.0, lb + 700.0, float(round(rng.uniform(0.0, lb + 3000.0)))])
+            if d < 0 or min(abs(d - la), abs(d - lb)) < 50.0:
+                continue
+            in_u, in_l = d <= la, la <= d <= lb
+            exp_tag = -1
+            for j, inside in sorted([(iu, in_u), (il, in_l)]):
+                if inside:
+                    exp_tag = 0            # both features have the same type, hence the same tag
+            i = cs.p3(slot, (q[0], q[1], TOP - d), d, [[4, 0, 0]])
+            plan.append(("node", i, exp_tag >= 0, q, d, "stacked " + kind3 + ": min/max"))
     # (4) plumes
     for _ in range(25 if quick else 400):
         rng.seed("%d/c04-5/%d" % (chk.seed, _))      # every world has its own stream: families do not disturb each other
